@@ -60,6 +60,43 @@ def run_items(ctx, items, pool=None, coq_file_fn=None):
     return all_ok
 
 
+def run_items_grouped(ctx, items, coq_file_fn=None, chunk=12):
+    """Like run_items for items whose group members are renderings of ONE abstract scenario: the implementation runs
+    on every item, the model is evaluated once per group (its verdict does not depend on the rendering)."""
+    pool = impl.Pool(ctx)
+    res = pool.validate_many([it.doc for it in items])
+    pool.close()
+    for it, r in zip(items, res):
+        it.res = r
+    reps = {}
+    for it in items:
+        reps.setdefault(it.group, it)
+    rep_items = list(reps.values())
+    files = []
+    for k in range(0, len(rep_items), chunk):
+        part = rep_items[k:k + chunk]
+        files.append(("gcases_%04d" % (k // chunk),
+                      (coq_file_fn or S.coq_cases_file)([it.scenario for it in part], [it.res["outcome"] == "accept" for it in part])))
+    outs = ctx.coq_eval_many(files)
+    all_ok = True
+    for k, (ok, out) in enumerate(outs):
+        part = rep_items[k * chunk:(k + 1) * chunk]
+        fails, kfs = parse_two_lists(out) if ok else (None, None)
+        if fails is None:
+            all_ok = False
+            ctx.notes.append("coq evaluation failed for chunk %d: %s" % (k, out[-600:]))
+            continue
+        for i, it in enumerate(part):
+            acc = it.res["outcome"] == "accept"
+            it.model_accepts = (not acc) if i in fails else acc
+            it.kf = i in kfs
+    for it in items:
+        rep = reps[it.group]
+        if it is not rep:
+            it.model_accepts, it.kf = rep.model_accepts, getattr(rep, "kf", False)
+    return all_ok
+
+
 def make_valid_items(ctx, rng, n, variants=2, threads=False, sizes=None):
     items = []
     import random
@@ -68,7 +105,7 @@ def make_valid_items(ctx, rng, n, variants=2, threads=False, sizes=None):
         g = scen_hash(s)
         for v in range(variants):
             r = {"spelling": ["mixed", "id", "alias", "mixed"][v % 4], "shuffle": v % 2 == 1, "descriptive": v % 3 == 2,
-                 "seed": rng.randrange(1 << 30), "numeric_names": (k + v) % 4 == 0}
+                 "seed": rng.randrange(1 << 30), "numeric_names": True if (k + v) % 4 == 0 else ("odd" if (k + v) % 4 == 2 else False)}
             doc = S.render(s, random.Random(r["seed"]), r["spelling"], r["shuffle"], r["descriptive"], r["numeric_names"])
             items.append(Item(s, doc, "valid", render=r, group=g))
     return items
@@ -80,7 +117,7 @@ def make_mutant_items(ctx, rng, n, owners, threads=False):
     for k in range(n):
         s, name, owner, desc = M.mutate(rng, only=owners, threads=threads)
         r = {"spelling": "id" if name in M.FORCE_ID_SPELLING else "mixed", "shuffle": k % 2 == 1, "descriptive": False,
-             "seed": rng.randrange(1 << 30), "numeric_names": k % 5 == 0 and name not in ("duplicate_id", "duplicate_name")}
+             "seed": rng.randrange(1 << 30), "numeric_names": (k % 5 == 0 and name not in ("duplicate_id", "duplicate_name")) or ("odd" if k % 5 == 2 else False)}
         doc = S.render(s, random.Random(r["seed"]), r["spelling"], r["shuffle"], r["descriptive"], r["numeric_names"])
         items.append(Item(s, doc, "mutant", mutator=name, owner=owner, desc=desc, render=r, group=scen_hash(s)))
     return items
